@@ -3,7 +3,7 @@
 copy of /repo (outside /repo and /verif), run the quick check against it via VERIF_REPO and expect
 exit 1. The scratch copy is removed afterwards. Nothing is ever applied to /repo itself.
 
-usage: tools/mutants.py [ID ...] [--seeded] [--tier quick|thorough] [--patch FILE --id ID]
+usage: tools/mutants.py [ID ...] [--seeded] [--tier quick|thorough] [--patch FILE ID] [-j N]
 """
 import glob
 import json
@@ -47,6 +47,7 @@ def main(argv):
     ids = []
     seeded = False
     single = None
+    njobs = 1
     it = iter(argv[1:])
     for a in it:
         if a == "--tier":
@@ -55,6 +56,8 @@ def main(argv):
             seeded = True
         elif a == "--patch":
             single = next(it)
+        elif a in ("-j", "--jobs"):
+            njobs = int(next(it))
         else:
             ids.append(a.upper())
     jobs = []
@@ -74,8 +77,11 @@ def main(argv):
             for p in sorted(glob.glob(os.path.join(d, "*.patch"))):
                 jobs.append((p, pid))
     bad = 0
-    for patch, pid in jobs:
-        status, out = run_patch(patch, pid, tier)
+    from concurrent.futures import ThreadPoolExecutor
+
+    with ThreadPoolExecutor(max_workers=njobs) as ex:
+        results = list(ex.map(lambda j: run_patch(j[0], j[1], tier), jobs))
+    for (patch, pid), (status, out) in zip(jobs, results):
         first = ""
         for line in out.splitlines():
             if line.startswith("  ") and ":" in line:
